@@ -241,10 +241,111 @@ def whole_rule(rep, mod, fname, width, poly, reflected, seed_name, data_name, le
                      '^'.join(sorted(want.bits[0]))))
 
 
+def strm_paths(rep, mod, f):
+    """igris_strmcrc8 with control flow: every path is evaluated in the GF(2) domain.  A branch that tests the data byte or
+    the register for equality with a constant splits the analysis - on the equal side the tested bits are replaced by the
+    constant - so that e.g. an early return for one byte value is compared with the definition at exactly that value."""
+    where = '%s:%d' % (f.file, f.line)
+    want = crc_step_ref(BV.sym(8, 'c'), BV.sym(8, 'd'), 0x31, 8, False)
+
+    def sub(bv, m):
+        out = []
+        for b in bv.bits:
+            acc = frozenset()
+            for x in b:
+                if x in m:
+                    if m[x]:
+                        acc = acc ^ frozenset([ONE])
+                else:
+                    acc = acc ^ frozenset([x])
+            out.append(acc)
+        return BV(bv.w, out)
+    results = []        # (substitution, final register)
+
+    def walk(b, prev, env, crc, m, depth):
+        if depth > 40:
+            raise AnalysisBroken('igris_strmcrc8: too many paths')
+        ev = BlockEval(f, mod)
+        ev.env = dict(env)
+        for i in b.insts:
+            if i.op == 'phi':
+                for (bb, v) in i.incoming:
+                    if prev is not None and bb == prev.name:
+                        ev.env[('i', i.id)] = ev.val(v)
+        for i in b.insts:
+            if i.op in ('dbg', 'phi') or i is b.term:
+                continue
+            if i.op == 'load' and i.ops[0].k == 'arg' and i.ops[0].argno == 0:
+                ev.env[('i', i.id)] = crc
+            elif i.op == 'store' and i.ops[1].k == 'arg' and i.ops[1].argno == 0:
+                crc = ev.val(i.ops[0])
+            elif i.op in ('load', 'store', 'call', 'invoke'):
+                raise AnalysisBroken('igris_strmcrc8: %s at %s not understood' % (i.op, i.where()))
+            else:
+                ev.step(i)
+        t = b.term
+        if t.op == 'ret':
+            results.append((dict(m), sub(crc, m)))
+            return
+        if t.op != 'br':
+            raise AnalysisBroken('igris_strmcrc8: terminator %s' % t.op)
+        if 'f' not in t.d:
+            return walk(f.bmap[t.d['t']], b, ev.env, crc, m, depth + 1)
+        c = ev.val(t.ops[0])
+        cc = sub(c, m).concrete() if isinstance(c, BV) else None
+        if cc is not None:
+            return walk(f.bmap[t.d['t'] if cc else t.d['f']], b, ev.env, crc, m, depth + 1)
+        ci = f.inst_of(t.ops[0])
+        if ci is None or ci.op != 'icmp' or ci.pred not in ('eq', 'ne') or not any(o.k == 'ci' for o in ci.ops):
+            raise AnalysisBroken('igris_strmcrc8: branch at %s depends on the data in a way that is not understood' % t.where())
+        x = ev.val([o for o in ci.ops if o.k != 'ci'][0])
+        k = [o for o in ci.ops if o.k == 'ci'][0].uval
+        x = sub(x, m)
+        eq_m = dict(m)
+        for j, bit in enumerate(x.bits):
+            want_bit = (k >> j) & 1
+            if len(bit) == 1 and ONE not in bit:
+                eq_m[next(iter(bit))] = want_bit
+            elif bit == (frozenset([ONE]) if want_bit else frozenset()):
+                continue
+            elif not bit or bit == frozenset([ONE]):
+                eq_m = None           # constant bit that differs: the equal side is unreachable
+                break
+            else:
+                raise AnalysisBroken('igris_strmcrc8: compared value at %s is not a plain byte' % t.where())
+        eq_side = t.d['t'] if ci.pred == 'eq' else t.d['f']
+        ne_side = t.d['f'] if ci.pred == 'eq' else t.d['t']
+        if eq_m is not None:
+            walk(f.bmap[eq_side], b, ev.env, crc, eq_m, depth + 1)
+        walk(f.bmap[ne_side], b, ev.env, crc, m, depth + 1)      # no information on this side: all values
+    env0 = {('a', 1): BV.sym(8, 'd')}
+    walk(f.entry, None, env0, BV.sym(8, 'c'), {}, 0)
+    bad = None
+    for m, got in results:
+        w = sub(want, m)
+        if got != w:
+            vals = {}
+            for sname, v in m.items():
+                vals.setdefault(sname[0], 0)
+                vals[sname[0]] |= v << int(sname[1:])
+            bad = ('on the path taken for %s the register becomes %s, the definition gives %s'
+                   % (' and '.join('%s == 0x%02x' % ({'c': 'crc', 'd': 'byte'}.get(k_, k_), v) for k_, v in sorted(vals.items()))
+                      or 'all inputs', [x for x in got.show()][:8], [x for x in w.show()][:8]))
+            break
+    ok = bad is None and bool(results)
+    rep.inst('R-CRCSTEP', 'igris_strmcrc8', 'step==definition(poly=0x31,msb-first)', ok, where,
+             None if ok else 'streaming CRC-8 step differs from the MSB-first polynomial 0x31 definition: %s' % bad)
+    rep.inst('R-CRCSTEP', 'igris_strmcrc8', 'residue-zero(f(c,d)=L(c^d),L(0)=0)', ok, where,
+             None if ok else 'the step is not the linear function of crc XOR byte on every path: message followed by its CRC does not '
+             'give 0')
+
+
 def strm_rule(rep, mod):
     f = mod.fn('igris_strmcrc8')
     if f is None or f.decl:
         raise AnalysisBroken('igris_strmcrc8 not found')
+    if not f.loops and len(f.blocks) != 1:
+        return strm_paths(rep, mod, f)
     if f.loops or len(f.blocks) != 1:
         raise AnalysisBroken('igris_strmcrc8 is not straight-line after unrolling (%d blocks)' % len(f.blocks))
     ev = BlockEval(f, mod)
